@@ -234,6 +234,7 @@ type Check struct {
 	Trusted    []string
 	Exhaustive bool
 	Hist       func(ctx *Ctx) *HistCfg // CLI histories judged by the executable specifications
+	Crash      bool                    // C15/C16: crash-prefix / fault-injection enumeration
 }
 
 type Known struct {
@@ -329,6 +330,14 @@ func runCheck(ctx *Ctx, ck *Check, auditPath, factsStatus, evidencePath string) 
 	var findings []Finding
 	addFinding := func(f Finding) { findings = append(findings, f) }
 	histStats := map[string]int{}
+	if ck.Crash {
+		hc, ho, hf, st := runCrashCases(ctx, ck.Prop, r.fork())
+		cases = append(cases, hc...)
+		impl = append(impl, ho...)
+		model = append(model, ho...)
+		findings = append(findings, hf...)
+		histStats = st
+	}
 	if ck.Hist != nil {
 		cfg := ck.Hist(ctx)
 		if ctx.Replay != "" {
@@ -482,9 +491,10 @@ func runCheck(ctx *Ctx, ck *Check, auditPath, factsStatus, evidencePath string) 
 		// report the smallest case per clause
 		byClause := map[string]Finding{}
 		for _, f := range reported {
-			g, ok := byClause[f.Clause]
+			key := f.Clause + "|" + f.Sig
+			g, ok := byClause[key]
 			if !ok || len(strings.Join(f.Case.Lines, "")) < len(strings.Join(g.Case.Lines, "")) {
-				byClause[f.Clause] = f
+				byClause[key] = f
 			}
 		}
 		var cl []string
@@ -563,6 +573,7 @@ func runCheck(ctx *Ctx, ck *Check, auditPath, factsStatus, evidencePath string) 
 		"correspondence_differences":    corr,
 		"spec_violations_unlisted":      specViol,
 		"known_findings_printed":        len(printedKnown),
+		"unlisted_violation_signatures": sigCounts(reported),
 		"input_distribution":            tagCount,
 		"operation_outcomes":            answerKinds,
 		"history_step_outcomes":         histStats,
@@ -592,6 +603,14 @@ func runCheck(ctx *Ctx, ck *Check, auditPath, factsStatus, evidencePath string) 
 	fmt.Printf("%s %s seed=%d: cases=%d steps=%d compared=%d agree=%d spec-violations=%d obligations=%d/%d wall=%.1fs\n",
 		ck.Prop, ctx.Tier, ctx.Seed, len(cases), steps, compared, agree, specViol, discharged, obligations, time.Since(t0).Seconds())
 	return exit
+}
+
+func sigCounts(fs []Finding) map[string]int {
+	m := map[string]int{}
+	for _, f := range fs {
+		m[f.Sig]++
+	}
+	return m
 }
 
 func clip(s string, n int) string {
